@@ -32,7 +32,7 @@ func c20Prop(rt *rapid.T, c *vlib.Case, t *testing.T) {
 	if err := veInstallConverters(d, cfg.converters); err != nil {
 		rt.Fatalf("converters: %v", err)
 	}
-	r := &vsRun{rt: rt, c: c, cfg: cfg, open: map[string]bool{}, tr: vsGenTraffic(rt), kindsDelivered: map[string]bool{}}
+	r := &vsRun{rt: rt, c: c, cfg: cfg, open: map[string]bool{}, tr: vsGenTraffic(rt), kindsDelivered: map[string]bool{}, lastDefs: map[string]string{}}
 	r.views[0], r.views[1] = &vsView{}, &vsView{}
 	c.Render(func() any { return map[string]any{"traffic": r.tr.brief(), "history": r.hist} })
 	e, err := veStart(d, true)
@@ -60,6 +60,14 @@ func c20Prop(rt *rapid.T, c *vlib.Case, t *testing.T) {
 		func() { e.mgr.ListConverters() },
 		func() { e.mgr.ListPcapOverIPEndpoints() },
 		func() { e.mgr.Config() },
+		func() {
+			for _, st := range e.mgr.ListConverters() {
+				for _, p := range st.Processes {
+					_, _ = e.mgr.ConverterStderr(st.Name, p.Pid)
+				}
+				_, _ = e.mgr.ConverterStderr(st.Name, -1)
+			}
+		},
 	}
 	for _, p := range pollers {
 		p := p
@@ -79,7 +87,7 @@ func c20Prop(rt *rapid.T, c *vlib.Case, t *testing.T) {
 	}
 	steps := rapid.IntRange(8, 30).Draw(rt, "steps")
 	for i := 0; i < steps; i++ {
-		switch rapid.SampledFrom([]string{"import", "import", "tag", "tag", "tag", "mark", "conv", "view", "pause"}).Draw(rt, "step") {
+		switch rapid.SampledFrom([]string{"import", "import", "tag", "tag", "tag", "mark", "conv", "conv", "reset", "view", "pause"}).Draw(rt, "step") {
 		case "import":
 			if r.nextCapture < r.tr.captures() {
 				r.stepImport()
@@ -97,6 +105,8 @@ func c20Prop(rt *rapid.T, c *vlib.Case, t *testing.T) {
 			if len(r.existingTags()) != 0 {
 				r.stepConv()
 			}
+		case "reset":
+			r.stepReset()
 		case "view":
 			v := e.mgr.GetView()
 			if _, err := veUseView(&v, []string{"sport:80", "cdata:aa"}); err != nil {
